@@ -457,7 +457,13 @@ func hasSym(vs []violation, sym string) bool {
 	return false
 }
 
+func hasSnapshot(w *world) bool {
+	ok, _ := w.raw.Has(db.RunningEventFilter.Key())
+	return ok
+}
+
 var pruneSyms = map[string]bool{
+	"dbdiff": true,
 	"read:tx-lookup": true, "read:tx-by-hash": true, "read:receipt": true, "read:number-by-hash": true,
 	"read:header-by-hash": true, "read:block-by-hash": true, "read:state-update-by-hash": true,
 	"read:l1-msg-lookup": true, "hist-state": true,
@@ -468,15 +474,21 @@ var pruneSyms = map[string]bool{
 // same disk (a memory-vs-disk disagreement).
 func (e *enumRun) classify(w *world, v violation, faultOp, mode string, sameProcessOnly bool) string {
 	memSym := strings.HasPrefix(v.sym, "events:") || strings.HasPrefix(v.sym, "next-store")
-	if sameProcessOnly && memSym {
-		if w.cacheWarm && w.crossedAfterWarm && v.sym == "events:false-negative" {
-			return "bloom-cache:stale-window-after-reorg-across-boundary"
-		}
-		for _, f := range w.failedOps {
+	if sameProcessOnly && memSym && w.cacheWarm && w.crossedAfterWarm && v.sym == "events:false-negative" {
+		return "bloom-cache:stale-window-after-reorg-across-boundary"
+	}
+	if memSym {
+		// the in-memory filter ran ahead of a commit that failed; the damage stays in the process
+		// and is carried over a restart by the graceful-stop snapshot
+		for _, f := range w.everFailed {
 			if f == "store" || f == "revert" {
-				return "event-filter:mem-ahead-of-failed-commit:" + f
+				if sameProcessOnly || hasSnapshot(w) {
+					return "event-filter:mem-ahead-of-failed-commit:" + f
+				}
 			}
 		}
+	}
+	if sameProcessOnly && memSym {
 		return "mem-disagrees-with-disk:" + v.sym + ":" + faultOp
 	}
 	if memSym && errors.Is(v.err, core.ErrAggregatedBloomFilterBlockOutOfRange) && w.hasWindow0() {
@@ -519,7 +531,7 @@ func (e *enumRun) check(w *world, phase, faultOp, mode string, fi, k int, keep b
 		return
 	}
 	var fresh []violation
-	needFresh := len(w.failedOps) > 0 || w.cacheWarm
+	needFresh := len(w.everFailed) > 0 || w.cacheWarm
 	if needFresh {
 		fresh = w.freshEval()
 	}
@@ -673,7 +685,10 @@ func TestCrashEnum(t *testing.T) {
 
 // ------------------------------------------------------------------ probe
 
-// TestCrashProbe determines, on the real code, the value of each specification switch.
+// TestCrashProbe replays, on the real code, the minimal history of each confirmed defect.  The
+// outcome is (1) the value of the corresponding specification switch — the faithful model must
+// describe the tree that is being checked — and (2), when the defect is there, a divergence with
+// the defect's key: a directed replay that does not depend on what the simulation happens to sample.
 func TestCrashProbe(t *testing.T) {
 	if !vh.Enabled() {
 		t.Skip()
@@ -683,6 +698,7 @@ func TestCrashProbe(t *testing.T) {
 	defer machinery(out)
 	seed := vh.Seed()
 	gen := consts{MaxH: 5, MaxVer: 3, InitH: 2, Boundary: 99, Genesis: true}
+	bnd := consts{MaxH: 4, MaxVer: 3, InitH: 2, Boundary: 2, Genesis: false}
 	var realErr error
 	mustWorld := func(c consts) *world {
 		w, err := newWorld(c, seed, false, "memory", false)
@@ -707,14 +723,21 @@ func TestCrashProbe(t *testing.T) {
 		}
 		return false
 	}
+	verdict := func(sw string, fixed bool, key, what string) {
+		out.Stats[sw] = fixed
+		if !fixed {
+			out.Diverge(vh.Divergence{Key: key, What: "[" + key + "] directed replay: " + what, Input: vh.J{"probe": sw}})
+		}
+	}
 	// H3: a failed revert must not move the in-memory running filter
 	{
 		w := mustWorld(gen)
 		w.revert(faultkv.FailAt, 1)
-		out.Stats["FixMemAfterCommit"] = found(w, bk{2, 1})
+		verdict("FixMemAfterCommit", found(w, bk{2, 1}), "event-filter:mem-ahead-of-failed-commit:revert",
+			"chain 0..2, RevertHead whose commit fails: the head stays 2 on disk but an event query on the same process no longer returns the event of block 2")
 		w.close()
 	}
-	// H2: a snapshot must not survive later block changes
+	// H2: a graceful-stop snapshot must not be reused after later block changes
 	{
 		w := mustWorld(gen)
 		w.snapshot(faultkv.Off, 0) // graceful stop ...
@@ -723,7 +746,8 @@ func TestCrashProbe(t *testing.T) {
 		w.revert(faultkv.Off, 0)
 		w.store(faultkv.Off, 0)
 		_ = w.restart() // ungraceful
-		out.Stats["FixSnapshot"] = found(w, bk{2, 2})
+		verdict("FixSnapshot", found(w, bk{2, 2}), "event-filter:stale-snapshot-reused-after-restart",
+			"graceful stop at height 2, start, revert block 2, store block 2', process dies, start: the stale snapshot (next = 3) is reused and the event of block 2' is not returned")
 		w.close()
 	}
 	// H12: the oldest retained block must advance with every hash-keyed prune batch
@@ -731,23 +755,33 @@ func TestCrashProbe(t *testing.T) {
 		w := mustWorld(consts{MaxH: 6, MaxVer: 2, InitH: 5, Boundary: 99, Genesis: true})
 		w.prune(3, 1, faultkv.CrashAfter, 1, nil)
 		o, _ := pruner.OldestRetainedBlock(w.raw)
-		out.Stats["FixPruneAtomicFloor"] = o > 0
+		verdict("FixPruneAtomicFloor", o > 0, "prune-crash:floor-reseed-below-deleted-history",
+			"chain 0..5, prune up to 3 with one batch per block, crash after the first batch: block 0 lost its tx lookups and history rows but commitments still name it the oldest retained block")
 		w.close()
 	}
 	// stale persisted window / H1 need the window boundary
 	{
-		b := consts{MaxH: 4, MaxVer: 3, InitH: 2, Boundary: 2, Genesis: false}
-		w := mustWorld(b)
+		w := mustWorld(bnd)
 		if w == nil {
-			out.Diverge(vh.Divergence{Key: "prune-fails-on-valid-chain", What: realErr.Error(), Input: input{}})
+			out.Diverge(vh.Divergence{Key: "prune-fails-on-valid-chain", What: realErr.Error(), Input: vh.J{"probe": "base"}})
 			return
 		}
 		w.apply(eop{name: "query"}, 1, faultkv.Off, 0)
 		w.revert(faultkv.Off, 0) // 8192
 		w.revert(faultkv.Off, 0) // 8191: back into window 0
-		out.Stats["FixReorgWindow"] = !w.hasWindow0()
+		stale := w.hasWindow0()
 		w.store(faultkv.Off, 0) // 8191' rolls the window over again
-		out.Stats["FixCacheOnReorg"] = found(w, bk{1, 2})
+		verdict("FixCacheOnReorg", found(w, bk{1, 2}), "bloom-cache:stale-window-after-reorg-across-boundary",
+			"height 8192, event query (caches window [0,8191]), revert 8192 and 8191, store 8191': the cached window still answers and the event of 8191' is not returned")
+		w.close()
+		// the stale persisted window: revert across the boundary, ungraceful restart, store
+		w = mustWorld(bnd)
+		w.revert(faultkv.Off, 0)
+		w.revert(faultkv.Off, 0)
+		_ = w.restart()
+		r := w.store(faultkv.Off, 0)
+		verdict("FixReorgWindow", !stale && r.kind == "ok", "event-filter:stale-window-after-reorg-across-boundary:store-fails-after-restart",
+			fmt.Sprintf("height 8192, revert 8192 and 8191, process dies, start, store 8191': %v", r.err))
 		w.close()
 	}
 	out.Done(5, 5)
